@@ -253,9 +253,9 @@ inductive CalcTok where
 deriving DecidableEq, Repr, Inhabited
 
 /-- `out.append(val, 'CHAR', alwaysS=True)` for an operator (`serialize.py:252` skipped because of `alwaysS`,
-`:268-271` APPEND, `:276-277` POST: **always** one space, whatever `prefs.spacer` is) -/
+`:271-281` APPEND incl. the `/` + `*` guard, `:284-285` POST: **always** one space, whatever `prefs.spacer` is) -/
 def outAppendOperator (out : List Cps) (val : Cps) : List Cps :=
-  (if val.getLast? = some 0x20 then removeLastIfS out else out) ++ [val, [0x20]]
+  outPush out val ++ [[0x20]]
 
 /-- `do_css_CSSCalc` over the flattened items; `stack` holds the `Out` lists of the enclosing `calc()` values -/
 def fmtCalcAux (ops : NumOps) (p : Prefs) : List CalcTok → List Cps → List (List Cps) → Except Err Cps
